@@ -74,6 +74,11 @@ class Counter:
             self.violations.append(Violation(key, message, replay or {}))
         self.inc('violations_seen')
 
+    def enough(self, n: int = 25) -> bool:
+        """True once n distinct violations have been recorded: an exploration that has found that much need not run to its end
+        (a broken tree can make the remaining search arbitrarily slow)."""
+        return len(self.violations) >= n
+
     def merge(self, other: 'Counter'):
         for k, v in other.n.items():
             self.n[k] = self.n.get(k, 0) + v
